@@ -41,6 +41,14 @@ SEEDS = {
  "C17b": dict(property="C17", needs="physical-core probe yielding 0 without raising + a second cpu_count(only_physical_cores=True) call: 0 is cached before the validity check"),
  "C18b": dict(property="C18", needs="two threads reaping the same child concurrently: the loser of the waitpid race gets ECHILD and records exit status 0"),
  "C19b": dict(property="C19", needs="LOKY_MAX_DEPTH=0 (unlimited): the falsy-zero slip turns it into the default limit 10"),
+ "C02c": dict(property="C02", needs="a worker killed by a real-time signal 35..63 (valid signal numbers without a signal.Signals member): the exit-code formatter raises ValueError in the manager thread before the pool is flagged broken"),
+ "C03c": dict(property="C03", needs="map() with chunksize >= 2 over iterables that are not independent (the same iterator passed several times, generators watching each other): each iterable is sliced on its own instead of in lockstep"),
+ "C04c": dict(property="C04", needs="an argument whose pickling raises any OSError (FileNotFoundError, PermissionError...): the feeder thread takes it for a closed pipe and returns silently"),
+ "C06c": dict(property="C06", needs="forced shutdown arriving when no future is unfinished while the workers own live descendants (subprocess or nested executor left by a finished task): the kill is skipped, the graceful path orphans them"),
+ "C07c": dict(property="C07", needs="the manager wakes (idle-timeout announcement of a worker) between the two swapped statements of submit(): the work id is queued before its work item is registered, KeyError kills the manager"),
+ "C08c": dict(property="C08", needs="reusable executor first created small (1 worker) and later resized beyond 2*initial+1: the call queue keeps the small size computed from the first max_workers"),
+ "C09c": dict(property="C09", needs="a second thread enters get_reusable_executor while another caller is creating or replacing the singleton (cold start, broken or shut-down previous instance, changed arguments): the singleton is read before the lock is taken"),
+ "C10c": dict(property="C10", needs="a worker dies during the spawn step of a growing resize and the manager thread examines the exit codes (iterating the live _processes dict) while the user thread inserts the new workers"),
  "C20b": dict(property="C20", needs="kill-type lifecycle + worker with descendants one of which vanishes during the kill: kill_process_tree returns early, the worker is neither killed nor joined (child, fd, semaphore accumulate)"),
 }
 DETECTED = json.load(open(os.path.join(ROOT, "seeded", "detected.json"))) if os.path.exists(os.path.join(ROOT, "seeded", "detected.json")) else {}
